@@ -5,7 +5,7 @@ MODEL_SHOW = "model_obs"
 DISAGREE_IS_VIOLATION = True   # observables are exactly what the property fixes
 HARNESS_TIMEOUT = 900
 RULE = ("fixed: every (service type gate/chat/room/unknown) x (method behaviour echo, fail, panic, never completes, "
-        "notify-shaped, unknown method, unknown group, undecodable payload, successful result the serializer cannot encode (+Inf float), successful result whose encoding PANICS (user MarshalJSON dereferencing nil), asynchronous completion (echo / unencodable result completed in a later turn of the service)) combination once as request and once as notification, "
+        "notify-shaped, unknown method, unknown group, undecodable payload, successful result the serializer cannot encode (+Inf float), successful result whose encoding PANICS (user MarshalJSON dereferencing nil), asynchronous completion (echo / unencodable result / result whose encoding panics, completed in a later turn of the service)) combination once as request and once as notification, "
         "for an unbound routing key and for keys naming chat-1, chat-2, an instance of the wrong type, a missing instance; the six "
         "malformed routes; connect-while-the-front-is-busy followed at once by forwarded requests (F12); the same request id in flight "
         "twice to different instances; close with requests pending at a back-end; id 2^32-1; PROTOCOL STATE MACHINE: a second Handshake packet, its ack and heartbeats at any moment of an established connection, with a forwarded request parked / a relayed reply / an asynchronous completion / a time-out produced before the ack, and data packets sent in the handshake state (ignored by the server); SESSION-ID REUSE: every connection is handed an explicit numeric session id through the allocator hook (largest id 2^32-1, the wrap that skips 0, small ids), a connection parks a request at a never-answering back-end handler and closes, a new connection receives the recycled id and uses the same request id, then the time-out arrives; PIPELINED BURST WITH A NON-READING CLIENT: the client stops reading for 1.5 s and pipelines 11000 front-local + 1500 forwarded requests with 4 kB responses (thorough: up to 13000 x 8 kB and 11000 forwarded), >9999 responses pending on one connection (the run tags whether the send queue actually filled: it did), then reads: exactly one response per request id. random: 1-3 connections, 2-60 pipelined "
@@ -14,7 +14,7 @@ RULE = ("fixed: every (service type gate/chat/room/unknown) x (method behaviour 
         "advance and a sentinel round trip on every open connection. Non-trivial = at least one response was received; distinct = distinct op lists.")
 TRUSTED_BASE = [
     "Coq 8.16.1 kernel + vm_compute (case evaluation, Examples); no native_compute",
-    "hand translation handler.go Process/tryCallCol/ProcessForwardMsg, forwarder.go Forward + relay callback, sessionsimpl.go ProcessMessage, builtin/system.go Call/Notify, session.go ResponseMID, actorex/service checkExpired -> C02/Model.v (REPAIRED code: hooks/C02-fix-*.patch, incl. C02-fix-forwarded-marshal-error), measured by this correspondence run",
+    "hand translation handler.go Process/tryCallCol/ProcessForwardMsg, forwarder.go Forward + relay callback, sessionsimpl.go ProcessMessage, builtin/system.go Call/Notify, session.go ResponseMID, actorex/service checkExpired -> C02/Model.v (REPAIRED code: hooks/C02-fix-*.patch, incl. C02-fix-forwarded-marshal-error and C02-fix-async-marshal-panic), measured by this correspondence run",
     "abstractions (modelled, not verified here): the front's pending-request table = one callback slot per forwarded request (id uniqueness is C01's theorem); protoactor local send = the message is in the target's mailbox (one hop per EDeliver); apimapper CallWithSerialize/CallMethod/SafeCall as the behaviour enum of Model.v (C13); route functions and the instance table as arbitrary functions rf/itype (C07); JSON payloads and error strings opaque (a response is (id, error flag, payload class))",
     "Go harness harness/e2e (in-process node, raw pomelo client on pomelonet codec packages, quiescence = sentinel round trips + mailbox/scheduler barriers until a full pass sees no activity) and harness/c02; verif hooks common.VerifSetNowMs and actorex/service VerifCheckExpired (hooks/C01-hook-service-export.patch); bin/check.py term printer",
     "TCP on localhost, Go channels, goroutine scheduling: exercised, not modelled",
@@ -28,7 +28,6 @@ ASSUMPTIONS = [
     "theorem C02_relayed_unchanged needs `calm`: the clock crosses a forward deadline only when no reply is in flight; otherwise the one response may be the time-out error (C02_one_response / C02_source cover that case)",
     "data packets a client sends between a re-handshake and its ack never become requests (session.go processPacket ignores them while status < working): Corr.prep removes them from the history; the harness does send them",
     "a connection in the handshake state cannot answer the driver's sentinel: its drain waits until its send queue is empty and the client stopped receiving (1 ms polls)",
-    "asynchronous completion is exercised for echo and for an unencodable result; a front-local handler that completes asynchronously with a result whose encoding PANICS is not (by reading: the panic ends in sche.doTask's recover and the request stays unanswered)",
     "only the JSON client serializer is exercised (the proto serializer is a process-wide setting that would change the argument decoding of every harness method)",
     "time-outs are crossed with the virtual clock and an explicit expiry scan (VerifCheckExpired); the 1 s real timer that normally triggers the scan is not waited for",
 ]
